@@ -1288,6 +1288,32 @@ func isSQLNotAllowedByUser(c *SessionExecutor, stmtType int) bool {
 		stmtType == parser.StmtWith
 }
 
+// stmtTypeOfNode returns the Preview type of a parsed statement that changes data or
+// schema or runs a prepared statement, parser.StmtUnknown for every other statement
+func stmtTypeOfNode(n ast.StmtNode) int {
+	switch s := n.(type) {
+	case *ast.InsertStmt:
+		if s.IsReplace {
+			return parser.StmtReplace
+		}
+		return parser.StmtInsert
+	case *ast.UpdateStmt:
+		return parser.StmtUpdate
+	case *ast.DeleteStmt:
+		return parser.StmtDelete
+	case *ast.LoadDataStmt:
+		return parser.StmtLoad
+	case *ast.PrepareStmt:
+		return parser.StmtPrepare
+	case *ast.ExecuteStmt:
+		return parser.StmtExecute
+	case *ast.CreateDatabaseStmt, *ast.DropDatabaseStmt, *ast.CreateTableStmt, *ast.DropTableStmt, *ast.RenameTableStmt,
+		*ast.CreateViewStmt, *ast.CreateIndexStmt, *ast.DropIndexStmt, *ast.AlterTableStmt, *ast.TruncateTableStmt:
+		return parser.StmtDDL
+	}
+	return parser.StmtUnknown
+}
+
 // 旧版本，这边有个版本对比的函数性能比较差，qps 大时损耗比较严重遂去掉，Contains 比 HasSuffix 性能差，去掉
 // preRewriteSQL pre rewite sql with string
 func preRewriteSQL(sql string, version *util.VersionCompareStatus) string {
